@@ -1,7 +1,9 @@
 package gen
 
 import (
+	"bytes"
 	"fmt"
+	"io"
 
 	"gitlab.com/gomidi/midi/v2"
 	"gitlab.com/gomidi/midi/v2/smf"
@@ -29,6 +31,12 @@ type APICase struct {
 	Division        uint16
 	NoRunningStatus bool
 	Tracks          []TrackOps
+	// WriteAfter > 0: the value is written once (to a discarding writer) after that many
+	// tracks have been added, then the remaining tracks are added (write - modify - write).
+	WriteAfter int `json:",omitempty"`
+	// ViaRead: that intermediate write goes to a buffer, is read back with ReadFrom and the
+	// remaining tracks are added to the value that was read (read - modify - write).
+	ViaRead bool `json:",omitempty"`
 }
 
 // Model is the pure model of what the history means (never consults the library).
@@ -119,7 +127,20 @@ func BuildLib(c APICase) *smf.SMF {
 		s.TimeFormat = TimeFormatOf(c.Division)
 	}
 	s.NoRunningStatus = c.NoRunningStatus
-	for _, to := range c.Tracks {
+	for i, to := range c.Tracks {
+		if c.WriteAfter > 0 && i == c.WriteAfter {
+			if c.ViaRead {
+				var buf bytes.Buffer
+				if _, err := s.WriteTo(&buf); err == nil {
+					if back, err := smf.ReadFrom(bytes.NewReader(buf.Bytes())); err == nil {
+						back.NoRunningStatus = c.NoRunningStatus
+						s = back
+					}
+				}
+			} else {
+				s.WriteTo(io.Discard)
+			}
+		}
 		var tr smf.Track
 		for _, op := range to.Ops {
 			switch op.Kind {
@@ -287,6 +308,10 @@ func API(t *rapid.T, o APIOpts) APICase {
 		}
 		c.Tracks = append(c.Tracks, to)
 	}
+	if ntr >= 2 && rapid.IntRange(0, 3).Draw(t, "writeInBetween?") == 0 {
+		c.WriteAfter = rapid.IntRange(1, ntr-1).Draw(t, "writeAfter")
+		c.ViaRead = rapid.Bool().Draw(t, "viaRead")
+	}
 	return c
 }
 
@@ -344,6 +369,11 @@ func APIClasses(c APICase) (classes []string, nontrivial bool) {
 	}
 	if c.NoRunningStatus {
 		set["no-running-status"] = true
+	}
+	if c.WriteAfter > 0 && c.ViaRead {
+		set["read-modify-write"] = true
+	} else if c.WriteAfter > 0 {
+		set["write-modify-write"] = true
 	}
 	for k := range set {
 		classes = append(classes, k)
